@@ -45,7 +45,8 @@ ELogger(m, e) ==
   \* C17: creating/looking up by name is idempotent: an existing valid logger is returned unchanged
   LET m1 == Check(m, "ok17", e.fresh = fresh, "create_or_get_logger: fresh/existing mismatch") IN
   IF fresh
-  THEN [m1 EXCEPT !.lg = Upd(m.lg, e.lg, [sinks |-> e.sinks, lvl |-> e.lvl, valid |-> TRUE, present |-> TRUE, sys |-> e.sys, ptr |-> 0])]
+  THEN [m1 EXCEPT !.lg = Upd(m.lg, e.lg, [sinks |-> e.sinks, fsinks |-> e.fsinks, lvl |-> e.lvl, valid |-> TRUE, present |-> TRUE,
+                                          sys |-> e.sys, ptr |-> 0])]
   ELSE m1
 
 \* create_or_get_logger / get_logger called from any thread (C17: idempotent and safe): one name, one logger object
@@ -53,7 +54,8 @@ ECreated(m, e) ==
   IF Has(m.lg, e.lg) /\ m.lg[e.lg].present
   THEN Check(m, "ok17", ~m.lg[e.lg].valid \/ m.lg[e.lg].ptr = 0 \/ m.lg[e.lg].ptr = e.ptr,
              "create_or_get_logger returned a different logger object for an existing name")
-  ELSE [m EXCEPT !.lg = Upd(m.lg, e.lg, [sinks |-> e.sinks, lvl |-> 0, valid |-> TRUE, present |-> TRUE, sys |-> TRUE, ptr |-> e.ptr])]
+  ELSE [m EXCEPT !.lg = Upd(m.lg, e.lg, [sinks |-> e.sinks, fsinks |-> <<>>, lvl |-> 0, valid |-> TRUE, present |-> TRUE, sys |-> TRUE,
+                                         ptr |-> e.ptr])]
 \* get_logger(): linearizable lookup. A logger that was registered (and valid) when the call STARTED must be found; one that is
 \* being created concurrently may or may not be.
 EGetCall(m, e) ==
@@ -69,7 +71,8 @@ EGot(m, e) ==
 \* ------------------------------------------------------------------ log call
 ELogCall(m, e) ==
   LET s == [t |-> e.t, lg |-> e.lg, lvl |-> e.lvl, kind |-> e.kind, lglvl |-> m.lg[e.lg].lvl, acc |-> -2, ts |-> 0,
-            committed |-> FALSE, late |-> FALSE, cnow |-> 0, sinks |-> m.lg[e.lg].sinks, sys |-> m.lg[e.lg].sys] IN
+            committed |-> FALSE, late |-> FALSE, cnow |-> 0, sinks |-> m.lg[e.lg].sinks, fsinks |-> m.lg[e.lg].fsinks,
+            sys |-> m.lg[e.lg].sys] IN
   [m EXCEPT !.st = Upd(m.st, e.id, s), !.open = Upd(m.open, e.t, e.id)]
 
 ETs(m, e) == IF Has(m.open, e.t) /\ m.open[e.t] # 0
@@ -168,6 +171,13 @@ EFlushRet(m, e) ==
         \A id \in ids : \A sname \in Range(m.st[id].sinks) :
           (Deliverable(m, id, sname) /\ m.sk[sname].tf = {}) => Flushed(m, id, sname),
         "flush_log returned before an earlier statement was written and flushed")
+
+\* the destination file of a real FileSink read immediately after flush_log() returned (sink still open): everything the
+\* flush promised and that goes to this file sink can be read from it
+EFileRead(m, e) ==
+  LET ids == IF Has(m.need, e.t) THEN m.need[e.t] ELSE {} IN
+  Check(m, "ok06", \A id \in ids : (m.st[id].acc = 1 /\ id \notin m.faulty /\ e.s \in Range(m.st[id].fsinks)) => id \in Range(e.ids),
+        "flush_log returned but an earlier statement cannot be read from the file sink's file")
 
 ENotify(m, e) ==
   LET m1 == [m EXCEPT !.reported = IF e.cls = "dropped" THEN m.reported + e.n ELSE m.reported,
@@ -274,6 +284,7 @@ MStep(m, e) ==
     [] e.k = "sflush" -> ESinkFlush(m, e)
     [] e.k = "flushcall" -> EFlushCall(m, e)
     [] e.k = "flushret" -> EFlushRet(m, e)
+    [] e.k = "fileread" -> EFileRead(m, e)
     [] e.k = "notify" -> ENotify(m, e)
     [] e.k = "quiescent" -> EQuiescent(m, e)
     [] e.k = "setlevel" -> ESetLevel(m, e)
